@@ -14,7 +14,7 @@ CHECKS = {
          "trusts hdkeychain derivation for predicted keys, the harness model of acknowledged operations (30 lines), goleveldb",
          "DESIGN.md §3 C02"),
  "C03": ("exploration", "seeded wallet histories with hostile passphrase arguments; success=>current-passphrase oracle, cross-keystore governance probe, and in-memory secret-validity invariant through the H4 inspector after every step",
-         "After every step of every history the H4 inspector (build tag verif) is read under the wallet's own locks: unlocking must be all-or-nothing and a locked wallet must hold no per-address/account/branch private key, no valid key-decrypting key, not the true private crypto key and no passphrase hash; every acknowledged sign/export/delete/passphrase change/create/import/unlock must have been given the current passphrase. Held = on the histories of this run.",
+         "After every step of every history the H4 inspector (build tag verif) is read under the wallet's own locks: unlocking must be all-or-nothing and a locked wallet must hold no per-address/account/branch private key, no valid key-decrypting key, not the true private crypto key and no passphrase hash; every acknowledged sign/export/delete/passphrase change/create/import/unlock must have been given the current passphrase (candidates include previous, public, ill-formed, empty, one-character-different, current+NUL bytes and current+legal characters beyond the 40-character limit; passphrases of exactly 6 and 40 characters occur). Held = on the histories of this run.",
          "trusts the H4 inspector (read-only, takes the package's own locks), snacl for recovering the true keys from the store",
          "DESIGN.md §3 C03"),
  "C04": ("exploration", "byte scan of store files, exports, API-written files and node log for ground-truth secrets after every operation, with positive control",
@@ -26,8 +26,8 @@ CHECKS = {
          "trusts pocec.Signature.Verify and wire.HashH from mass-core",
          "DESIGN.md §3 C05"),
  "C06": ("exploration", "issuance log with set oracle (unique keys make histories unambiguous), sequential histories and 2-8 concurrent issuers, restart and lookup agreement",
-         "Every issued key must be the derived key at the next external index of its keystore, never returned before, with ordinal equal to that index and agreeing lookups before and after restart; concurrent issuance from 2-8 goroutines is recorded and checked as a set per keystore (consecutive, no reuse, no gap). Held = on the issuances of this run.",
-         "trusts hdkeychain derivation (C18); the keeper end-to-end re-indexing of (ordinal,key) file names is covered by C11/C15",
+         "Every issued key must be the derived key at the next external index of its keystore, never returned before, with ordinal equal to that index and agreeing lookups before and after restart; concurrent issuance from 2-8 goroutines is recorded and checked as a set per keystore (consecutive, no reuse, no gap); a real capacity keeper creates 1-14 header-only spaces on a wallet that issued 0-12 keys before, every plot file name must carry the wallet ordinal of its key and a second keeper on the reopened wallet must index every file (ordinals >= 10 included). Held = on the issuances of this run.",
+         "trusts hdkeychain derivation (C18); header/name mismatches of plot files are C11",
          "DESIGN.md §3 C06"),
  "C07": ("exploration", "real massdb.v1 plotter in child processes under the cache-size hook (H1), judged entry by entry against an independent reference construction plus tie-break-independent soundness/completeness and a GetProof/VerifyProof oracle",
          "Held on 201 (quick) / 499 (thorough) uninterrupted real plots at bit lengths 8-20 and 24 across 33-71 distinct window shapes: every table entry equalled the reference construction and was sound, and every bl-24 challenge was served a verifying proof exactly when the construction has one. Bit lengths >= 26, real low-memory conditions (emulated by the hook) and resumed plots (C10) are not covered.",
@@ -42,11 +42,11 @@ CHECKS = {
          "the gates sit between critical sections where the Go scheduler could preempt anyway; the pending-channel length is read by reflection at quiescent points; scripted plots stand in for real plotting (real plots: C07/C10/C11/C13)",
          "DESIGN.md §3 C09"),
  "C10": ("fault_enumeration", "crash/stop fault injection at hook points (H1/H2) on the real plotter in child processes, with reopen-and-compare against a reference plot, a bounded-progress monitor counted in loop iterations, and a syscall-order (strace) write-ordering oracle",
-         "Every hook point of both plotting passes x kill / graceful stop x window index, asynchronous kills and up to four interruptions in a row at bit lengths 8-16, each resumed with a different window size (plus files carrying the odd checkpoints older builds left behind); after every interruption the reopened space is checked (never plotted with an incomplete table, nothing below a recorded checkpoint differs from the reference), every resume must finish within a loop-iteration bound and end byte-identical to the reference table. Durability is judged as pwrite/fsync/unlink order in strace traces. The fault space of each explored (key, bit length, window configuration) is enumerated per hook point and occurrence; keys and configurations are sampled.",
+         "Every hook point of both plotting passes x kill / graceful stop x window index, asynchronous kills, graceful stops landing a seeded delay inside a window (seen by the block-wise window write instead of the sweep) and up to four interruptions in a row at bit lengths 8-16, each resumed with a different window size (plus files carrying the odd checkpoints older builds left behind); after every interruption the reopened space is checked (never plotted with an incomplete table, nothing below a recorded checkpoint differs from the reference), every resume must finish within a loop-iteration bound and end byte-identical to the reference table. Durability is judged as pwrite/fsync/unlink order in strace traces. The fault space of each explored (key, bit length, window configuration) is enumerated per hook point and occurrence; keys and configurations are sampled.",
          "SIGKILL cannot lose page cache: power loss is represented by the syscall-order oracle only; bit lengths above 16 and real memory pressure are not exercised; trusts refplot (C07)",
          "DESIGN.md §3 C10"),
  "C11": ("exploration", "seeded plot-directory/history exploration of the real keeper with hook-gated plotter (H3), per-operation file-system diff oracle, independent reference indexer, strace attribution of unlink/rename/truncate (thorough)",
-         "Real keeper, real plot files and a real wallet over seeded plot directories (27 file classes across 1-3 directories) and gated action histories: a full directory listing is compared before and after every operation (only an accepted Delete, the end-of-plot removal of map A and the documented legacy rename may remove or rename plot files), Remove/Delete must be refused while plotting or mining, and every start-up/restart index is judged file by file against an independent reference indexer (header vs name, wallet key and ordinal, duplicates, recorded progress). Held = on the scenarios executed; file creation at start-up is observed, not judged (the statement forbids deletion).",
+         "Real keeper, real plot files and a real wallet over seeded plot directories (27 file classes across 1-3 directories) and gated action histories: a full directory listing is compared before and after every operation (only an accepted Delete, the end-of-plot removal of map A and the documented legacy rename may remove or rename plot files), Remove/Delete must be refused while plotting or mining, a third of the real plots get a Stop request at the end of pass A (cut short inside pass B: map A must survive), and every start-up/restart index is judged file by file against an independent reference indexer (header vs name, wallet key and ordinal, duplicates, recorded progress). Held = on the scenarios executed; file creation at start-up is observed, not judged (the statement forbids deletion).",
          "tables of bit length >= 24 are fabricated headers / sparse files, so 'never serves proofs from rejected files' is observed as absence of a proof object; trusts the harness reference indexer (cross-checked against the generator's own expectation in every scenario)",
          "DESIGN.md §3 C11"),
  "C12": ("fault_enumeration", "fault-injecting db.DB around the real leveldb store: every bucket write and every commit of every operation failed or crashed (sentinel panic), reopen-equals-none-or-all oracle; plus real SIGKILL of a child process executing acknowledged histories",
@@ -54,15 +54,15 @@ CHECKS = {
          "read faults are not injected (statement is about writes, commits, crashes); SIGKILL cannot lose page cache, so leveldb's own fsync discipline is exercised but not power loss; goleveldb transaction atomicity is trusted below the db interface",
          "DESIGN.md §3 C12"),
  "C13": ("exploration", "stress and directed schedules of the real keepers under the race detector in child processes; call/return completeness, watchdog with goroutine-dump attribution, process-death detection",
-         "4-16 goroutines fire every keeper entry point (single and bulk actions, queries, miner offers, Start, Stop) at 1-3 spaces on the v1 keeper over scripted plots, on the v2 keeper, and on the v1 keeper over the real massdb.v1 backend with small plot windows; directed schedules hold a real plot at a hook point while a Stop request races keeper shutdown, fire 900-1500 requests while a plot is held, and cycle Start/Stop. Every call must return, Stop must return and the process must not panic; an open call at the 45 s watchdog is a deadlock only if the goroutine dump shows goroutines blocked in repository frames. Held = on the scenarios of this run; race reports in repository code are listed as observations (the statement does not promise race freedom).",
+         "4-16 goroutines fire every keeper entry point (single and bulk actions, queries, miner offers, Start, Stop) at 1-3 spaces on the v1 keeper over scripted plots, on the v2 keeper, and on the v1 keeper over the real massdb.v1 backend with small plot windows; directed schedules hold a real plot at a hook point while a Stop request races keeper shutdown, fire 900-1500 requests while a plot is held, and cycle Start/Stop (with Starts refused because the poc wallet is locked; the stress goroutines lock and unlock the wallet too). Every call must return, Stop must return and the process must not panic; an open call at the 45 s watchdog is a deadlock only if the goroutine dump shows goroutines blocked in repository frames. Held = on the scenarios of this run; race reports in repository code are listed as observations (the statement does not promise race freedom).",
          "wall-clock watchdog (45 s against normal latencies of micro- to milliseconds) decides 'never returns' together with the dump; real plots only at bit lengths 12-16",
          "DESIGN.md §3 C13"),
- "C14": ("exploration", "Go race detector over concurrent wallet histories in child processes (reports filtered to repository frames) + porcupine linearizability check of every recorded history against a sequential wallet model + quiescent-state inspection",
-         "2-4 goroutines issue mixed wallet operations on 1-2 keystores under -race; every call is recorded at the client boundary with one monotonic clock and every history is checked with porcupine against a sequential model (issued indices, lock flag, remark, export contents, lookups); race reports whose two accesses are both in repository code are violations, de-duplicated by function pair; a dead child is a crash; at the end the H4 locked-memory invariant and reopen equality are checked. Held = no report / all histories linearizable in this run.",
+ "C14": ("exploration", "Go race detector over concurrent wallet histories in child processes (reports filtered to repository frames) + porcupine linearizability check of every recorded history against a sequential wallet model + interval oracle over observer-stress histories + quiescent-state inspection; injected pauses after store commits",
+         "2-4 goroutines issue mixed wallet operations on 1-2 keystores under -race; every call is recorded at the client boundary with one monotonic clock and every history is checked with porcupine against a sequential model (issued indices, lock flag, remark, export contents, lookups); race reports whose two accesses are both in repository code are violations, de-duplicated by function pair; a dead child is a crash; at the end the H4 locked-memory invariant and reopen equality are checked. Two in three histories run over a store that pauses up to 4 ms after 35% of its commits (widening the window between store update and in-memory publication), every fifth is remark-heavy, and every tenth case is an observer-stress history (1-2 writers issue 40-92 keys; 3-5 readers poll counts, listings and ordinal lookups in a tight loop; every answer must lie between what was acknowledged before the call and what was requested by its return; counts never decrease). Held = no report / all histories linearizable / all observer answers possible in this run.",
          "race detector only sees executed interleavings; porcupine timeout (60 s) = dropped case; model allows Unlock(current) to fail on an already unlocked wallet (sequential behaviour of the code)",
          "DESIGN.md §3 C14"),
  "C15": ("exploration", "seeded scenario exploration of the real capacity keeper, wallet, massdb.v1 header-only plot files and api.Server capacity handlers with an arithmetic and directory-listing oracle, plus restart comparison",
-         "Scenarios run ConfigureBySize/ByPath/ByBitLength/ByFlags, the API capacity handlers, removals and keeper restarts over 0-6 pre-existing spaces in 1-3 directories; every call is judged from returned infos, directory listings before/after and disk.Usage free space for size arithmetic (sum <= request, gap < smallest plot), reuse-before-create, directory placement, exact counts, rejection without files (incl. overflow-sized requests), and re-discovery after restart. Held = on the scenarios executed, bit lengths 24-30, nothing plotted.",
+         "Scenarios run ConfigureBySize/ByPath/ByBitLength/ByFlags, the API capacity handlers, removals and keeper restarts over 0-6 pre-existing spaces in 1-3 directories; every call is judged from returned infos, directory listings before/after and disk.Usage free space for size arithmetic (sum <= request, gap < smallest plot), reuse-before-create, directory placement, exact counts, rejection without files (incl. overflow-sized requests), and re-discovery after restart; two in five scenarios spell miner.proof_dir non-canonically (relative, through "..", trailing "/" or "/."), and every api.ConfigureCapacityByDirs response is compared per directory with the selection. Held = on the scenarios executed, bit lengths 24-30, nothing plotted.",
          "free disk space is read with the same gopsutil call the code uses, requests near the boundary are not judged; trusts mass-core PlotSize",
          "DESIGN.md §3 C15"),
  "C16": ("exploration", "seeded generators with real BLS elements + structure-aware JSON/type-prefix/hex/BLS-point mutator over valid encodings, child-process batches with progress-file crash attribution, hang/RSS watchdog and per-input allocation accounting; thorough re-runs a slice under go build -asan",
@@ -70,7 +70,7 @@ CHECKS = {
          "the prebuilt BLS archives are not instrumented (asan sees only intercepted libc calls); allocation bound is a proxy for 'exhausts memory'",
          "DESIGN.md §3 C16"),
  "C17": ("exploration", "in-process cluster topologies (superior, pools, relays, collectors over loopback TCP with scripted keepers) under -race with a fault-injecting TCP proxy and schedule hooks (H6); client-boundary event log judged by an offline oracle, watchdog plus goroutine-dump attribution for non-returning calls",
-         "On the seeded scenarios - removals, stops, drops, stalls and late subscriptions at seeded moments, including inside the hook-widened AddTask/Subscribe window - every recorded event log must satisfy: broadcast tasks exactly once to fully covered collectors (at least once to late subscribers), targeted tasks only inside the target's subtree, every received report equal to a sent one with a stable connection tag and in per-connection order, nothing delivered after RemoveTask returned, every call returned within the 30 s watchdog (deadlock only with repository frames in the dump), and fresh probe tasks still answered after every injected event. Held = on the scenarios of this run; nothing about topologies beyond 16 collectors / 2 relays or faults not produced.",
+         "On the seeded scenarios - removals, stops, drops, stalls and late subscriptions at seeded moments, including inside the hook-widened AddTask/Subscribe window - every recorded event log must satisfy: broadcast tasks exactly once to fully covered collectors (at least once to late subscribers), targeted tasks only inside the target's subtree, every received report equal to a sent one with a stable connection tag and in per-connection order, nothing delivered after RemoveTask returned, every call returned within the 30 s watchdog (deadlock only with repository frames in the dump), and fresh probe tasks still answered after every injected event. A third of the scenarios give the pools' connections a 0.2-3 ms keepalive interval (hook), so stops and drops land on keepalive ticks and pongs; after the last teardown of every child process the goroutine dump must show no cluster-code goroutine blocked for good (judged only when every remaining one waits on a lock or wait group in two dumps a second apart). Held = on the scenarios of this run; nothing about topologies beyond 16 collectors / 2 relays or faults not produced.",
          "unique ids make the history unambiguous; quality tasks use parent target 0 so every scripted quality passes (the chain library's filtering is not re-derived); race reports are observations",
          "DESIGN.md §3 C17"),
  "C18": ("exploration", "independent BIP32/BIP39 reference oracle over seeded and searched (leading-zero) seeds/paths/entropies",
